@@ -48,13 +48,13 @@ def dec_num(x):
     return x
 
 
-def make_grid(p):
+def make_grid(p, crs=None):
     """p = (ny, nx, ry, rx, ox, oy, fx, fy) -> GridSpec (real implementation)."""
     from odc.geo import resyx_, xy_
     from odc.geo.gridspec import GridSpec
 
     ny, nx, ry, rx, ox, oy, fx, fy = p
-    return GridSpec(CRS, (ny, nx), resyx_(ry, rx), origin=xy_(ox, oy), flipx=fx, flipy=fy)
+    return GridSpec(crs or CRS, (ny, nx), resyx_(ry, rx), origin=xy_(ox, oy), flipx=fx, flipy=fy)
 
 
 def cparams(p) -> str:
@@ -499,6 +499,11 @@ def p_shape(p, parts):
     got = [tuple(i) for i, _ in g.tiles_from_geopolygon(Geometry(sh, CRS))]
     if len(set(got)) != len(got):
         return False, f"duplicates in {got[:12]}"
+    return _judge_shape(p, sh, got)
+
+
+def _judge_shape(p, sh, got, rel=1e-9):
+    from shapely.geometry import box
     (ox_, szx, dx_), (oy_, szy, dy_) = axis_of(p, "x"), axis_of(p, "y")
     x0, y0, x1, y1 = (F(v) for v in sh.bounds)
 
@@ -513,15 +518,85 @@ def p_shape(p, parts):
             seen.add((ix, iy))
             t = box(float(xa), float(ya), float(xb), float(yb))
             a = sh.intersection(t).area
-            if a > 1e-9 * area_t and (ix, iy) not in got:
+            if a > rel * area_t and (ix, iy) not in got:
                 return False, f"tile {(ix, iy)} overlaps the query by {a / area_t:.4f} of a tile but is missing: returned {len(got)} tiles {got[:8]}"
-            if (ix, iy) in got and sh.distance(t) > 1e-6 * float(min(szx, szy)):
+            if (ix, iy) in got and sh.distance(t) > max(1e-6, rel ** 0.5) * float(min(szx, szy)):
                 return False, (f"tile {(ix, iy)} [{float(xa)},{float(xb)}]x[{float(ya)},{float(yb)}] is {sh.distance(t) / float(min(szx, szy)):.3f} tile sizes away "
                                f"from the query (disjoint) but is returned ({len(got)} tiles returned)")
     far = [i for i in got if i not in seen]
     if far:
         return False, f"tiles far from the query returned: {far[:6]}"
     return True, f"{len(got)} tiles"
+
+
+_KEEP = {}
+
+
+def keep_crs(spec):
+    """one odc.geo CRS object per query CRS, created once and kept for the life of the process"""
+    from odc.geo.crs import CRS as _C
+    if spec not in _KEEP:
+        _KEEP[spec] = _C(spec)
+    return _KEEP[spec]
+
+
+def p_xpoly(p, gcrs, qpts, qcrs):
+    """polygon query given in another CRS than the grid: a tile is returned iff its footprint overlaps the query.
+    Reference independent of odc.geo.crs / Geometry.to_crs: vertices moved with pyproj.Transformer(always_xy=True)
+    called directly, footprints from the grid parameters in Fractions, shapely area / distance"""
+    from pyproj import Transformer
+    from shapely.geometry import Polygon
+    from odc.geo import geom
+    g = make_grid(p, gcrs)
+    q = geom.polygon(list(qpts) + [qpts[0]], keep_crs(qcrs))
+    try:
+        got = [tuple(i) for i, _ in g.tiles_from_geopolygon(q)]
+    except Exception as e:
+        return False, f"raised {type(e).__name__}: {str(e)[:200]}"
+    tr = Transformer.from_crs(qcrs, gcrs, always_xy=True).transform
+    sh = Polygon([tr(x, y) for x, y in qpts])
+    if not sh.is_valid or sh.area == 0:
+        return True, "degenerate query after projection (not judged)"
+    if len(set(got)) != len(got):
+        return False, f"duplicates in {got[:12]}"
+    return _judge_shape(p, sh, got, rel=1e-6)
+
+
+XGRIDS = [("epsg:3857", (-120, 120), (-55, 60)), ("epsg:32633", (12.5, 17.5), (10, 70)), ("epsg:3577", (120, 145), (-38, -15))]
+
+
+def gen_xpoly(rng, gcrs=None, centre=None):
+    """grid in a projected CRS with tiles of 20..200 km and a lon/lat triangle spanning a few tiles"""
+    from pyproj import Transformer
+    if gcrs is None:
+        gcrs, lr, br = rng.choice(XGRIDS)
+        centre = (rng.uniform(*lr), rng.uniform(*br))
+    lon, lat = centre
+    n = rng.choice([50, 100, 256])
+    r = float(rng.choice([100, 400, 1000]))
+    p = (n, n, -r * rng.choice([1, 1, -1]), r * rng.choice([1, 1, -1]), rng.choice([0.0, 0.0, 12345.0]), rng.choice([0.0, -54321.0]),
+         rng.random() < 0.3, rng.random() < 0.3)
+    fw = Transformer.from_crs("epsg:4326", gcrs, always_xy=True).transform
+    bw = Transformer.from_crs(gcrs, "epsg:4326", always_xy=True).transform
+    cx, cy = fw(lon, lat)
+    ts = n * r
+    pts = [(cx + rng.uniform(-2.5, 2.5) * ts, cy + rng.uniform(-2.5, 2.5) * ts) for _ in range(3)]
+    qpts = [tuple(round(v, 6) for v in bw(*q)) for q in pts]
+    return p, gcrs, qpts, "epsg:4326"
+
+
+def p_many_crs(n, salt):
+    """more CRSs than any plausible cache bound: n grids, each in its own custom transverse-Mercator CRS, queried with a
+    lon/lat triangle through one long-lived EPSG:4326 CRS object; each judged like xpoly"""
+    rng = core.rng(f"c14-many-{n}-{salt}")
+    for i in range(n):
+        lon0 = -170 + ((i * 11 + salt * 7) % 340) + (salt % 5) / 16
+        crs = f"+proj=tmerc +lat_0=0 +lon_0={lon0} +k=0.9996 +x_0=500000 +y_0={salt * 1000 + i} +ellps=WGS84 +units=m +no_defs"
+        p, gcrs, qpts, qcrs = gen_xpoly(rng, crs, (lon0 + rng.uniform(-1, 1), rng.uniform(-50, 50)))
+        ok, detail = p_xpoly(p, gcrs, qpts, qcrs)
+        if not ok:
+            return False, f"CRS number {i} ({crs}), grid {p}, query {qpts}: {detail}"
+    return True, f"{n} custom CRSs"
 
 
 def gen_shape(rng, p):
@@ -586,7 +661,7 @@ def p_web(z, npix):
     return True, f"zoom {z}: {n} tiles per side"
 
 
-PREDICATES = {"bin": p_bin, "point": p_point, "neigh": p_neigh, "tiles": p_tiles, "poly": p_poly, "shape": p_shape,
+PREDICATES = {"bin": p_bin, "point": p_point, "neigh": p_neigh, "tiles": p_tiles, "poly": p_poly, "shape": p_shape, "xpoly": p_xpoly, "many_crs": p_many_crs,
               "sample": p_sample, "web": p_web}
 
 
@@ -611,6 +686,10 @@ def fix_args(name, args):
     args = list(args)
     if name == "poly":
         args[1] = [tuple(pt) for pt in args[1]]
+    if name == "xpoly":
+        args[2] = [tuple(q) for q in args[2]]
+    if name == "after_history":
+        args[3] = fix_args(args[2], args[3])
     if name == "shape":
         args[1] = [([tuple(q) for q in o], [[tuple(q) for q in h] for h in hs]) for o, hs in args[1]]
     return args
@@ -677,6 +756,57 @@ def search(out, tier):
         run("poly", p, pts, "epsg:4326")
     for z in range(0, 21 if big else 13):
         run("web", z, 256 if z % 2 == 0 else 512)
+    for gi in range(20 if not big else 150):
+        run("xpoly", *gen_xpoly(rng))
+    run("many_crs", 160 if not big else 400, rng.randrange(1000))
+    # process histories of the CRS layer, evaluated in a fresh interpreter (tools/vlib/c12c14_hist.py); a violation is
+    # recorded through the "after_history" predicate, which applies the perturbations first
+    from vlib import c12c14_hist
+    rows, ok_child, err = c12c14_hist.run_child("c14", tier)
+    out.oblige("search:process-history child ran to completion", "harness", ok_child, err)
+    for r in rows:
+        hist, name, detail = r["hist"], r["name"], r["detail"]
+        out.count("predicate:after_history:" + "+".join(hist) + ":" + name)
+        out.case(("pred", "after_history", hist, name, r["args"]), True)
+        key = f"c14:after_history:{name}"
+        if not r["ok"] and key not in found:
+            found[key] = True
+            a = [enc_args(list(hist)), enc_args(HIST_SPECS), "str:" + name, r["args"]]
+            out.violation(key, f"after_history[{hist}, {name}, {r['args']}]: {detail}",
+                          {"predicate": "after_history", "args": a, "observed": detail})
+
+
+HIST_SPECS = ["epsg:4326", "epsg:3857", "epsg:32633", "epsg:3577"]
+
+
+def _register_history():
+    from vlib import crshist
+    PREDICATES.setdefault("after_history", crshist.after_history(PREDICATES))
+    keep_crs("epsg:4326")
+
+
+def history_cases(tier, emit):
+    """runs in a fresh interpreter: perturb the caches of odc.geo.crs, then evaluate the cross-CRS polygon queries"""
+    from vlib import crshist
+    _register_history()
+    rng = core.rng("c14-history")
+    big = tier != "quick"
+
+    def run_after(hist, name, *args):
+        try:
+            ok, detail = PREDICATES[name](*args)
+        except Exception as e:
+            ok, detail = False, f"predicate raised {type(e).__name__}: {e}"
+        emit(hist, name, args, ok, detail)
+
+    hist = ("authority-order-first", "queries-first")
+    crshist.perturb(hist, HIST_SPECS)
+    for gi in range(16 if not big else 100):
+        run_after(hist, "xpoly", *gen_xpoly(rng))
+    hist = hist + ("churn",)
+    crshist.perturb(("churn",), HIST_SPECS)
+    for gi in range(2 if not big else 8):
+        run_after(hist, "many_crs", 40, rng.randrange(1000))
 
 
 # ---------------------------------------------------------------- entry points
@@ -693,6 +823,7 @@ def run(out, tier, scratch):
                 "non-convex shapes at tile scale (holes, U/L shapes, far-apart multi-parts) judged by shapely intersection area / distance "
                 "against tile footprints computed from the grid parameters")
     out.assumptions += [
+        "process histories of odc.geo.crs (tools/vlib/crshist.py) evaluated in a fresh interpreter: cross-CRS polygon queries (xpoly, many_crs) are judged against pyproj.Transformer(always_xy=True) called directly, never against Geometry.to_crs",
         "exact-rational model of binary64: theorems are about exact arithmetic; the correspondence is exact on the dyadic domain",
         "oracle: shapely disjoint(polygon, tile extent) and the CRS conversion + bounding box of query polygons "
         "(universally quantified function parameters in the theorem; replayed from the real calls in the correspondence)",
@@ -720,11 +851,19 @@ def run(out, tier, scratch):
 
 
 def replay(rp) -> int:
+    _register_history()
     name = rp["predicate"]
     args = fix_args(name, dec_args(rp["args"]))
     ok, detail = PREDICATES[name](*args)
     print(f"replay {name}{rp['args']}: {'holds' if ok else 'FAILS'}: {detail}")
     return 0 if ok else 1
+
+
+if __name__ == "__main__":
+    import sys as _sys
+    if "--history-child" in _sys.argv:
+        from vlib import c12c14_hist as _h
+        _h.child_main(history_cases, enc_args)
 
 
 META = {
